@@ -126,6 +126,9 @@ def zstr_method(I, s, name, args, kwargs, node):
         return r
     if name == "encode":
         return s
+    if name == "isspace" and not args:
+        from .builtins_model import str_isspace_term
+        return str_isspace_term(s)
     raise SymError("str method %s on symbolic string" % name)
 
 
@@ -188,8 +191,39 @@ def list_method(I, lst, name, args, kwargs, node):
             I.note_write(lst)
             lst.sort()
             return None
+        if len(lst) <= 4 and set(kwargs) <= {"key", "reverse"} and not kwargs.get("reverse"):
+            # small list, symbolic keys: fork over the permutations; a permutation is the result exactly when consecutive keys
+            # are non-decreasing and equal keys keep their original order (list.sort is stable)  [assumed library semantics]
+            import itertools
+            keyf = kwargs.get("key")
+            keys = [I.call(keyf, [x], {}, node) if keyf is not None else x for x in lst]
+            n = len(lst)
+            perms = list(itertools.permutations(range(n)))
+            for pi, perm in enumerate(perms):
+                cond = L.And(*[L.Or(lex_lt(keys[a], keys[b]), L.And(lex_eq(keys[a], keys[b]), a < b)) for a, b in zip(perm, perm[1:])])
+                if pi == len(perms) - 1:
+                    I.ctx.assume(L.to_z3(cond) if not isinstance(cond, bool) else z3.BoolVal(cond))
+                    take = True
+                else:
+                    take = I.ctx.branch(cond)
+                if take:
+                    I.note_write(lst)
+                    lst[:] = [lst[k] for k in perm]
+                    return None
         raise SymError("list.sort on symbolic elements (use a contract-level summary)")
     raise SymError("list method %s" % name)
+
+
+def lex_lt(a, b):
+    if isinstance(a, tuple) and isinstance(b, tuple):
+        if not a or not b:
+            return len(a) < len(b)
+        return L.Or(L.lt(a[0], b[0]), L.And(L.eq(a[0], b[0]), lex_lt(a[1:], b[1:])))
+    return L.lt(a, b)
+
+
+def lex_eq(a, b):
+    return L.eq(a, b)
 
 
 def slist_method(I, sl, name, args, kwargs, node):
